@@ -627,8 +627,12 @@ link_op = st.one_of(st.tuples(st.just("read")), st.tuples(st.just("relink"), idx
                     st.tuples(st.just("relink"), st.just(0), idx, idx), st.tuples(st.just("update_components"), idx, idx, st.booleans())).map(list)
 
 
+move_op = st.one_of(st.tuples(st.just("read")), st.tuples(st.just("move_group"), st.just(0)), st.tuples(st.just("move_group"), idx),
+                    st.tuples(st.just("edit"), st.just(0), idx, idx, idx)).map(list)
+
+
 @st.composite
-def core_cases(draw, ops=None):
+def core_cases(draw, ops=None, focus="link"):
     shape = draw(st.sampled_from([[5], [5], [2, 3]]))
     n = int(np.prod(shape))
     dspec = {"label": "d0", "shape": shape, "coords": None,
@@ -637,7 +641,16 @@ def core_cases(draw, ops=None):
     a = draw(st.lists(st.integers(-3, 5).map(float), min_size=n, max_size=n))
     kinds = [k for k in LEAF_KINDS if len(shape) == 1 or k not in ("catroi", "category")]
     groups = [draw(gen.tree_spec(dspec, max_leaves=3, kinds=kinds)) for _ in range(draw(st.integers(1, 3)))]
-    if ops is not None:
+    if ops is not None and focus == "move":
+        # move-focused histories: the first group is a region selection inside a negation / a many-way 'or' (each has a memo
+        # cache of its own), evaluated, then moved
+        roi = st.builds(lambda xc, yc, r: {"t": "roi", "x": ["c", 0], "y": ["c", 1], "roi": {"k": "circ", "xc": xc, "yc": yc, "r": r}},
+                        st.integers(-1, 3).map(float), st.integers(0, 2).map(float), st.sampled_from([1.5, 2.5]))
+        other = st.builds(lambda v: {"t": "ineq", "att": ["c", 0], "op": "gt", "val": v}, st.integers(-2, 4).map(float))
+        groups[0] = draw(st.one_of(st.builds(lambda x: {"t": "not", "a": x}, roi), st.builds(lambda x, y: {"t": "multior", "states": [x, y]}, roi, other),
+                                   st.builds(lambda x, y: {"t": "and", "a": {"t": "not", "a": x}, "b": y}, roi, other),
+                                   st.builds(lambda x, y: {"t": "multior", "states": [y, {"t": "not", "a": x}]}, roi, other)))
+    elif ops is not None:
         # link-focused histories: the first group is defined on the linked attribute alone, so that the other dataset can
         # evaluate it through the link (and no longer can once the link is gone)
         on_a = st.builds(lambda o, v: {"t": "ineq", "att": ["c", 0], "op": o, "val": v}, st.sampled_from(["gt", "le", "ge", "lt"]), st.integers(-2, 4).map(float))
@@ -666,6 +679,7 @@ def checks(tier):
     return [
         Check("core_histories", fn_history, strategy=core_cases(), examples=n[0]),
         Check("link_histories", fn_history, strategy=core_cases(ops=link_op), examples=n[3]),
+        Check("move_histories", fn_history, strategy=core_cases(ops=move_op, focus="move"), examples=n[3] // 2),
         Check("histogram_layer_state", fn_hist_state, strategy=hist_cases, examples=n[1]),
         Check("live_viewer_updates", fn_viewer, strategy=viewer_cases, examples=n[2]),
     ]
